@@ -3,7 +3,6 @@ package main
 import (
 	"fmt"
 	"io/ioutil"
-	"path/filepath"
 	"sort"
 	"strings"
 )
@@ -20,7 +19,7 @@ func postC08(st *runState) {
 		}
 		m := map[int64]string{}
 		for shard := range ur.Results {
-			p := filepath.Join(st.work, fmt.Sprintf("res_%s_%s_%s_%d.json.transcript", pkgKey(ur.Unit.Pkg), ur.Unit.Job, ur.Config, shard))
+			p := resultPath(st.work, ur.Unit, ur.Config, shard) + ".transcript"
 			b, err := ioutil.ReadFile(p)
 			if err != nil {
 				continue
